@@ -149,6 +149,26 @@ theorem obsProbFl_enclosure {rnd : Rat → Rat} {u : Rat} (h : StdRounding rnd u
   rw [show 2 + m.S * m.S = m.S * m.S + 2 by ring] at this
   exact this
 
+/-! ## the two-stage helpers on the loop branch perform the SAME operations in the SAME order as the one-stage helper -/
+
+/-- loop branch of `updateBeliefPartial`, every result rounded: `br[s1] = 0.0; for s: br[s1] = rnd(br[s1] + rnd(T(s,a,s1) * b[s]))` -/
+def predictFl (rnd : Rat → Rat) (m : POMDP) (b : Vec) (a : Nat) : Vec :=
+  fun s1 => flSumTo rnd m.S (fun s => rnd (m.T s a s1 * b s))
+
+/-- loop branch of `updateBeliefPartialUnnormalized`, rounded: `br[s] = rnd(O(s,a,o) * b[s])` -/
+def partialUnnormFl (rnd : Rat → Rat) (m : POMDP) (p : Vec) (a o : Nat) : Vec :=
+  fun s => rnd (m.Ob s a o * p s)
+
+/-- whatever the rounding function (no assumption at all), predict-then-correct returns bit for bit what `updateBeliefUnnormalized` returns on
+    the loop branch: the driver therefore compares the two with `==` on every stream for the `generic` representation -/
+theorem two_stage_fl_eq (rnd : Rat → Rat) (m : POMDP) (b : Vec) (a o : Nat) :
+    partialUnnormFl rnd m (predictFl rnd m b a) a o = unnormFl rnd m b a o := rfl
+
+/-- … and `updateBeliefPartialNormalized ∘ updateBeliefPartial` = `updateBelief` likewise (the same division by the same rounded sum) -/
+theorem two_stage_normalized_fl_eq (rnd : Rat → Rat) (m : POMDP) (b : Vec) (a o : Nat) (s1 : Nat) :
+    rnd (partialUnnormFl rnd m (predictFl rnd m b a) a o s1 / flSumTo rnd m.S (partialUnnormFl rnd m (predictFl rnd m b a) a o))
+      = rnd (unnormFl rnd m b a o s1 / flSumTo rnd m.S (unnormFl rnd m b a o)) := rfl
+
 /-- the hypotheses are satisfiable: exact arithmetic is a `StdRounding` with `u = 0`, and then the enclosure collapses to equality -/
 example : obsProbFl id exM exB 0 0 = probO exM exB 0 0 := by
   have hid : StdRounding id 0 := ⟨le_refl _, by norm_num, fun x _ => by simp, fun x _ => by simp⟩
